@@ -324,6 +324,7 @@ func checkC20(c *Check) {
 	}
 	poolInsertIsFinal(c, "C20.R4")
 	transportIsOwn(c, "C20.R3")
+	tlsConfigFieldsAudited(c, "C20.R2")
 	// the watcher re-reads the path that was configured: the file reader keeps its constructor argument as given (a
 	// path resolved once — EvalSymlinks, Abs — keeps pointing at the old target after a symlink-swap rotation, which
 	// is how Kubernetes updates mounted secrets)
@@ -831,4 +832,40 @@ func transportIsOwn(c *Check, rule string) {
 	}
 	c.Obl(nClient >= 1, rule, "client-transport-writes", "-", fmt.Sprintf("%d http.Client.Transport assignments", nClient), "no assignment of http.Client.Transport found (anchor lost)")
 	c.Obl(n >= 1, rule, "transport-field-writes", "-", fmt.Sprintf("%d writes to http.Transport fields, each on an own transport", n), "no write to an http.Transport field found (anchor lost)")
+}
+
+// tlsConfigFieldsAudited: own code sets only the audited fields of a tls.Config — RootCAs (C20.R2) and
+// InsecureSkipVerify (C20.R1). Every other field changes what a connection trusts behind the back of those
+// rules: a ClientSessionCache resumes sessions without re-verifying the chain against rotated roots,
+// VerifyPeerCertificate / VerifyConnection / GetClientCertificate / ServerName / Certificates replace the
+// verification or the identity.
+func tlsConfigFieldsAudited(c *Check, rule string) {
+	P := c.P
+	allowed := map[string]bool{"RootCAs": true, "InsecureSkipVerify": true, "MinVersion": true, "NextProtos": true}
+	n := 0
+	for _, fn := range P.Funcs {
+		if !isOwnPath(pkgPathOf(fn)) {
+			continue
+		}
+		for _, b := range fn.Blocks {
+			for _, ins := range b.Instrs {
+				st, ok := ins.(*ssa.Store)
+				if !ok {
+					continue
+				}
+				fa, isF := st.Addr.(*ssa.FieldAddr)
+				if !isF || typeID(derefType(fa.X.Type())) != "crypto/tls.Config" {
+					continue
+				}
+				f := fieldOf(fa.X.Type(), fa.Field)
+				if f == nil {
+					continue
+				}
+				n++
+				c.Obl(allowed[f.Name()], rule, "tls-config-field/"+fnKey(fn)+"/"+f.Name(), P.Pos(st.Pos()), "tls.Config."+f.Name()+" is an audited field",
+					"own code sets tls.Config."+f.Name()+" in "+fnKey(fn)+": this field changes what a connection trusts outside the audited RootCAs / InsecureSkipVerify rules (a session cache keeps accepting a server of a rotated-out CA)")
+			}
+		}
+	}
+	c.Obl(n >= 1, rule, "tls-config-fields", "-", fmt.Sprintf("%d tls.Config field writes in own code", n), "no tls.Config field write found (anchor lost)")
 }
